@@ -164,7 +164,7 @@ static uint64_t div_count_for(int maxn, unsigned maxinc) {
   return s;
 }
 
-static int DIV_MAXN(bool th) { return th ? 6 : 5; }
+static int DIV_MAXN(bool th) { return th ? 9 : 7; }
 static const unsigned DIV_MAXINC = 3, DIV_MAXTOTAL = 5;
 
 static uint64_t div_total_cfg() {
